@@ -55,6 +55,19 @@ VALREPS = {
 }
 
 
+class _Label:
+    """what a render function may return: any object; its str() is the rendering"""
+
+    def __init__(self, s):
+        self.s = s
+
+    def __str__(self):
+        return self.s
+
+    def __repr__(self):
+        return "<Label %s at 0x%x>" % (self.s, id(self))
+
+
 def _some_function(x=None):
     """a callable used as an attribute VALUE and as a sought value (searches compare with ==, never call it)"""
     return True
@@ -1181,11 +1194,17 @@ class Real:
             elif toks[2] == "attr":
                 rf = self.rf_attr       # ONE long-lived callable that reads the vertex's attribute a0
             elif toks[2] == "dup":
-                rf = lambda x: "none" if x is None else "w%d" % (self.vname(x) % 2)  # noqa: E731  (labels shared by several vertices)
+                # labels shared by several vertices; the render function returns OBJECTS (dates, enum members, Decimals in
+                # user code) whose str() — what the rendering is — differs from their repr()
+                rf = lambda x: _Label("none" if x is None else "w%d" % (self.vname(x) % 2))  # noqa: E731
+            elif toks[2] == "num":
+                rf = lambda x: code(x) * 5  # noqa: E731
             else:
                 rf = lambda x: "none" if x is None else "v%d" % self.vname(x)  # noqa: E731
             sort = None
-            if toks[3] != "-":
+            if toks[2] == "num":
+                sort = None if toks[3] == "-" else rf          # the SAME callable object as render function and sort key
+            elif toks[3] != "-":
                 k = int(toks[3])
                 sort = lambda x: (code(x) * (k + 1)) % (3 if k == 1 else 7)  # noqa: E731
             r = plaintext.basic_render(u, rfunc=rf, sort=sort)
